@@ -93,6 +93,10 @@ def cases(rnd):
     C.append(("garbage-line", lambda k, i: b"garbage\r\n\r\n", {}))
     C.append(("non-numeric-status", lambda k, i: b"HTTP/1.1 abc\r\n\r\n", {}))
     C.append(("not-utf8", lambda k, i: b"\xff\xfe\r\n\r\n", {}))
+    # Content-Length values that str.isdigit() accepts and int() refuses (superscript two), and Unicode decimal digits int() accepts
+    C.append(("content-length-superscript", lambda k, i: "HTTP/1.1 400 Bad\r\nContent-Length: \u00b2\r\n\r\n".encode("utf-8"), {}))
+    C.append(("content-length-arabic-digits", lambda k, i: "HTTP/1.1 400 Bad\r\nContent-Length: \u0663\r\n\r\nabc".encode("utf-8"), {}))
+    C.append(("content-length-huge", lambda k, i: b"HTTP/1.1 400 Bad\r\nContent-Length: 99999999999\r\n\r\n", {}))
     C.append(("header-without-colon", lambda k, i: b"HTTP/1.1 101 X\r\nnocolon\r\n\r\n", {}))
     C.append(("eof-midway", lambda k, i: b"HTTP/1.1 101 Switching", {}))
     C.append(("redirect-limit0", lambda k, i: b"HTTP/1.1 301 Moved\r\nLocation: ws://example.com/y\r\n\r\n", {"redirect_limit": 0}))
